@@ -567,6 +567,69 @@ class ProgGen(Gen):
         self.budget -= 6
         return out
 
+    def s_ifaceeq(self, cx):
+        """interface equality where both operands are THE SAME boxed value: x == x, a copy of the interface variable - for
+        comparable values (true), NaN-carrying values (false) and uncomparable dynamic types (run-time panic, recovered)"""
+        r = self.rng
+        P = self.P
+        K = tint(self.kind())
+        if not hasattr(self, '_eqany'):
+            # func EqAny(a, b any) (r bool) { defer func() { if e := recover(); e != nil { println("recovered compare panic"); r = false } }(); return a == b }
+            f = self.new_func('EqAny', False, ['any', 'any'], [BOOL], pkg=cx.pkg, named=True)
+            a, b = f.params
+            res = f.results[0]
+            lit = Func('lit', f.pkg)
+            lit.is_lit = True
+            e = Var(P.slot(), 'e', 'any')
+            lit.body = [Decl([e], [Recover()]),
+                        If([], Bin('ne', VarRef(e), Zero('any')), [Print(True, [StrLit(b"recovered compare panic")]), Assign([VarRef(res)], [BoolLit(False)])], [])]
+            P.add_func(lit, printed=False)
+            f.body = [Defer(FuncLit(lit, P.sig([], [])), []), Return([Bin('eq', VarRef(a), VarRef(b))])]
+            f.cost = 10
+            P.add_func(f)
+            us = TypeDecl('%sUs%d' % (self.pfx, len(P.types)), 'struct', cx.pkg)
+            us.fields = [('A', K, False), ('S', ('slice', K), False)]
+            P.add_type(us)
+            fs = TypeDecl('%sFs%d' % (self.pfx, len(P.types)), 'struct', cx.pkg)
+            fs.fields = [('A', K, False), ('F', F64, False)]
+            P.add_type(fs)
+            self._eqany = (f, us, fs, K)
+        f, us, fs, K = self._eqany
+        if f.pkg > cx.pkg:
+            return None
+        z, nan = self.newvar(cx, F64, 'z'), self.newvar(cx, F64, 'nan')
+        out = [Decl([z], [FloatLit(0.0)]), Decl([nan], [Bin('quo', VarRef(z), VarRef(z))]),
+               Print(True, [StrLit(b"nan"), Bin('eq', VarRef(nan), VarRef(nan)), Bin('ne', VarRef(nan), VarRef(nan)), Bin('lt', VarRef(z), FloatLit(1.5))])]
+        SK = ('slice', K)
+        fty = P.sig([], [K])
+        lit = self.closure(cx, fty, nstmts=1)
+        boxes = [
+            ('slice', SeqLit(SK, [self.int_expr(cx, K, 1) for _ in range(r.randint(0, 2))])),
+            ('func', lit),
+            ('struct-with-slice', StructLit(('named', us), [self.int_expr(cx, K, 1), SeqLit(SK, [self.int_lit(K)])])),
+            ('nan', VarRef(nan)),
+            ('struct-with-nan', StructLit(('named', fs), [self.int_expr(cx, K, 1), VarRef(nan)])),
+            ('array-with-nan', SeqLit(('arr', 2, F64), [FloatLit(1.5), VarRef(nan)])),
+            ('float', FloatLit(2.0) if False else Bin('add', VarRef(z), FloatLit(2.0))),
+            ('int', self.int_expr(cx, K, 1, nonconst=True)),
+            ('string', self.str_expr(cx, 1)),
+        ]
+        r.shuffle(boxes)
+        prev = None
+        for name, e in boxes[:r.randint(5, 9)]:
+            x, y = self.newvar(cx, 'any', 'bx'), self.newvar(cx, 'any', 'by')
+            out += [Decl([x], [ToIface('any', e)]), Decl([y], [VarRef(x)]),
+                    Print(True, [StrLit(name.encode()), Call(f, [VarRef(x), VarRef(x)]), Call(f, [VarRef(x), VarRef(y)]), Call(f, [VarRef(y), VarRef(x)])])]
+            if prev is not None:
+                out.append(Print(True, [StrLit(b"different types"), Call(f, [VarRef(x), VarRef(prev)])]))
+            if name in ('nan', 'struct-with-nan', 'array-with-nan', 'float', 'int', 'string'):
+                out.append(Print(True, [Bin('eq', VarRef(x), VarRef(x)), Bin('ne', VarRef(x), VarRef(y))]))
+            prev = x
+        self.feat.add('iface-eq-same-boxed-value')
+        self.charge(cx, 150)
+        self.budget -= 8
+        return out
+
     BIG_SIZES = [500, 520, 520, 1024, 1024, 2000, 5000, 5000, 8190, 8200]
     big_sizes = None
 
@@ -801,6 +864,12 @@ class ProgGen(Gen):
             if c < 0.16:
                 body += self.s_iface_chain(cx)
                 continue
+            if c < 0.3 and not hasattr(self, '_ifeq_done') and self.budget < 45:
+                self._ifeq_done = True
+                st = self.s_ifaceeq(cx)
+                if st:
+                    body += st
+                    continue
             if c < 0.2 and not hasattr(self, '_blank_done'):
                 self._blank_done = True
                 st = self.s_blank(cx)
@@ -909,8 +978,22 @@ func readIndex() int {
 '''
 
 
+class RawProgram:
+    """a hand-written corpus program given as Go text (declarations of package main, entry function P<idx>Main): compared
+    between llgo and the reference toolchain only (no Lean evaluation: it uses constructs outside the fragment or runs too long)"""
+    raw = True
+
+    def __init__(self, idx, text, seed, known_key, feature):
+        self.idx, self.text, self.seed, self.known_key = idx, text.replace('@P@', 'P%d' % idx), seed, known_key
+        self.features = {feature}
+        self.main = type('M', (), {'name': 'P%dMain' % idx})()
+        self.funcs = []
+
+
 def go_decls(P, pkg, npk):
     """Go text of program P's declarations that live in package `pkg` + the set of imported packages"""
+    if getattr(P, 'raw', False):
+        return (P.text if pkg == npk else ''), set()
     cx = Cx(P, pkg, npk)
     out = []
     for d in P.go_types:
@@ -969,6 +1052,8 @@ LAYOUTS = {1: {1: 1, 2: 1, 3: 1, 4: 1}, 2: {1: 1, 2: 1, 3: 1, 4: 2}, 3: {1: 1, 2
 def relayout(P, npk):
     """programs are generated over 4 levels (level 4 = the entry function); a layout maps levels to packages monotonically,
     so the SAME program can be emitted as 1, 2, 3 or 4 packages"""
+    if getattr(P, 'raw', False):
+        return
     m = LAYOUTS[npk]
     objs = list(P.types) + list(P.go_types) + list(P.funcs) + list(P.go_funcs) + list(P.globals)
     for o in list(objs):
